@@ -14,13 +14,14 @@ def stage_probes(B, sname, prefix=None, dc=False, intg=False):
     """dict label -> MX for one stage: node times, T, t0, every declared symbol on the control grid."""
     st = B.stages[sname]
     pre = (prefix if prefix is not None else sname) + "|"
+    owner = getattr(B, "owner", {}).get(sname, sname)   # a clone carries its template's declarations
     P = {}
     tk, _ = st.sample(st.t, grid="control")
     P[pre + "tk"] = tk
     P[pre + "T"] = st.value(st.T)
     P[pre + "t0"] = st.value(st.t0)
     for name, d in B.decl.items():
-        if d["stage"] != sname:
+        if d["stage"] != owner:
             continue
         sym = B.syms[name]
         if is_signal_decl(d):
@@ -33,7 +34,7 @@ def stage_probes(B, sname, prefix=None, dc=False, intg=False):
         ti, _ = st.sample(st.t, grid="integrator")
         P[pre + "ti"] = ti
         for name, d in B.decl.items():
-            if d["stage"] == sname and d["kind"] == "state":
+            if d["stage"] == owner and d["kind"] == "state":
                 P[pre + "intg:" + name] = st.sample(ca.vec(B.syms[name]), grid="integrator")[1]
     if dc:
         ti, _ = st.sample(st.t, grid="integrator")
@@ -41,7 +42,7 @@ def stage_probes(B, sname, prefix=None, dc=False, intg=False):
         P[pre + "ti"] = ti
         P[pre + "tr"] = tr
         for name, d in B.decl.items():
-            if d["stage"] != sname:
+            if d["stage"] != owner:
                 continue
             sym = B.syms[name]
             if d["kind"] in ("state",):
